@@ -82,9 +82,12 @@ class GeventWorker(AsyncWorker):
             server.start()
             servers.append(server)
 
+        # never sleep longer than the heartbeat interval the arbiter gave us
+        wait = min(1.0, self.timeout) if self.timeout else 1.0
+
         while self.alive:
             self.notify()
-            gevent.sleep(1.0)
+            gevent.sleep(wait)
 
         try:
             # Stop accepting requests
@@ -107,7 +110,7 @@ class GeventWorker(AsyncWorker):
                     return
 
                 self.notify()
-                gevent.sleep(1.0)
+                gevent.sleep(wait)
 
             # Force kill all active the handlers
             self.log.warning("Worker graceful timeout (pid:%s)", self.pid)
